@@ -13,7 +13,7 @@ SPEC = dict(
          "handshake, XEP-0078 field offer, iq get known/unknown, SASL success, bind result, see-other-host, message, a version IQ in a "
          "FOREIGN namespace, a white space keep-alive} for TLS "
          "required with and without legacy auth, one level less for TLS enabled/disabled; plus seeded random scripts of length "
-         "3-12 over an 88-symbol alphabet (adds: iq get/set/result, message, presence in a foreign / the empty / the jabber:server namespace, "
+         "3-12 over a 91-symbol alphabet (with `tick` = the keep-alive interval elapses; keep-alive on in half of the random configurations) (adds: iq get/set/result, message, presence in a foreign / the empty / the jabber:server namespace, "
          "<r/> and <a/>, SASL/SASL2/SM/bind answers at any time incl. before TLS, starttls <failure/>, half an element, stream error + "
          "</stream:stream> in ONE segment, see-other-host + close in one segment, TCP reset, header + features / header + stanza in ONE "
          "segment) driven by a protocol-conforming server that is derailed with probability 1/3 per step, "
@@ -25,10 +25,11 @@ SPEC = dict(
          "elements and classified; with TLS required anything but stream open/starttls/stream close, or any occurrence of the "
          "password, its base64/SASL PLAIN form, its XEP-0078 digest or the token HMAC, is a failure keyed by element kind and by the "
          "cause visible in the script; features without starttls on a well-formed unencrypted connection must end in a closed "
-         "connection and state()==Disconnected; the client-side log view and the server-side byte view must agree. Timers: three scenarios with "
-         "the keep-alive ping interval at 1 s and 1.4 s of real time passing before TLS (first connection; connection opened after a "
-         "see-other-host inside an established session, without and with stream management) - nothing may be written; judged by the oracle "
-         "only, time is not an op of the model. NOT modelled/exercised: elements that follow, in the same read, an element that makes the client "
+         "connection and state()==Disconnected; the client-side log view and the server-side byte view must agree. Time is the op `tick`: keep-alive configured with an interval of one hour, `tick` delivers the timer event to every "
+         "running periodic timer of the outgoing client. Stall scenarios (correspondence lines): the server stalls two intervals at EVERY point of "
+         "every conforming flow (19 policies; TLS enabled and TLS required) and once inside the session, plus ticks around a see-other-host; "
+         "a ping or <r/> on the clear link is an oracle failure (…:keepalive-timer). Three real-time scenarios (real interval 1 s, 1.4 s pass "
+         "before TLS) are judged by the oracle only. NOT modelled/exercised: elements that follow, in the same read, an element that makes the client "
          "disconnect or start the TLS handshake (<proceed/> + more data in one segment).",
     trusted_base=[
         "Lean 4.33.0 kernel; axioms per theorem listed under coverage.theorems (subset of propext, Classical.choice, Quot.sound)",
@@ -48,7 +49,8 @@ SPEC = dict(
                "empty/jabber:server namespaces, <r/>, <a/>, white space, half elements, error+close in one read): with TLS required nothing but "
                "stream open/starttls/stream close is ever written to an unencrypted wire, hence no password, digest or token. For every "
                "configuration and every reachable state waiting before TLS: any element but stream features / stream error is rejected "
-               "(pre_tls_element_is_rejected); features without starttls, <failure/> to starttls, and <proceed/> + failed handshake each end in "
+               "(pre_tls_element_is_rejected); no keep-alive ping / <r/> on a clear link however long the server stalls, and a tick writes "
+               "something only inside a session (no_keepalive_before_encryption, keepalive_only_in_session); features without starttls, <failure/> to starttls, and <proceed/> + failed handshake each end in "
                "stream close + disconnected (tls_unavailable_disconnects, starttls_failure_disconnects, failed_handshake_disconnects); "
                "'version-less header => give up'; 'jabber:client IQ request before TLS => rejected'. The scripts that used to leak (fixed by "
                "e0bbad9, fa0779c and e3d3c0f: foreign-namespace version IQ, <r/> after a redirect with stream management left on) are replayed first.",
